@@ -20,6 +20,16 @@ def _oplayer():
     return oplayer.generate(os.path.join(REPO, 'src/quantity/__init__.py'))
 
 
+def _mconv():
+    from . import mconv
+    return mconv.generate(os.path.join(REPO, 'src/quantity/money/__init__.py'))
+
+
+def _cstack():
+    from . import cstack
+    return cstack.generate(os.path.join(REPO, 'src/quantity/__init__.py'))
+
+
 def _temptable():
     from . import temptable
     return temptable.generate(os.path.join(REPO, 'src/quantity/predefined.py'))
@@ -49,6 +59,8 @@ GENERATORS = [
     ('RoundingImpl', _rounding),
     ('QuantityImpl', _qlayer),
     ('OpsImpl', _oplayer),
+    ('MoneyConvImpl', _mconv),
+    ('ConvStackImpl', _cstack),
     ('TempTable', _temptable),
     ('IsoTable', _isotable),
     ('Catalogue', _catalogue),
